@@ -181,19 +181,21 @@ Qed.
 Definition op_fun (o : op) : option tree -> option (option tree) :=
   match o with
   | Mkdir _ => f_mkdir | Create _ => f_create | Write _ c => f_write c | Unlink _ => f_unlink | Rmdir _ => f_rmdir
+  | Replace _ c => f_replace c
   end.
 
 Lemma apply_alter : forall o t, apply o t = alter (op_path o) (op_fun o) t.
-Proof. intros [p|p|p c|p|p] t; reflexivity. Qed.
+Proof. intros [p|p|p c|p|p|p c] t; reflexivity. Qed.
 
 Lemma op_fun_leafy : forall o a v, op_fun o a = Some v -> leafy a /\ leafy v.
 Proof.
-  intros [p|p|p c|p|p] a v H; simpl in H.
+  intros [p|p|p c|p|p|p c] a v H; simpl in H.
   - destruct a; inversion H; simpl; auto.
   - destruct a as [[c|cs]|]; inversion H; simpl; auto.
   - destruct a as [[c'|cs]|]; inversion H; simpl; auto.
   - destruct a as [[c|cs]|]; inversion H; simpl; auto.
   - destruct a as [[c|[|e cs]]|]; inversion H; simpl; auto.
+  - destruct a as [[c'|cs]|]; inversion H; simpl; auto.
 Qed.
 
 Lemma apply_self : forall o t t',
@@ -279,7 +281,7 @@ Proof.
     specialize (IH m t' p Hr H).
     destruct (path_eqb (op_path o) p) eqn:Ep.
     + apply path_eqb_eq in Ep. assert (Hm : is_mkdir o = true) by (apply Hall; simpl; auto).
-      destruct o as [q|q|q c|q|q]; try discriminate. simpl in Ep. subst q.
+      destruct o as [q|q|q c|q|q|q c]; try discriminate. simpl in Ep. subst q.
       destruct (apply_self _ _ _ E) as (v & Hf & Hv). simpl in Hf, Hv.
       assert (N0 : node_at t p = None).
       { unfold node_at. destruct (lookup t p); simpl in Hf; [discriminate|reflexivity]. }
@@ -294,7 +296,8 @@ Qed.
 (* mkdir / rmdir at p can only succeed when p is not a file, before and after: they leave [file_at p] alone *)
 Definition fstep (p : path) (cur : option content) (o : op) : option content :=
   if path_eqb (op_path o) p then
-    match o with Create _ => Some (Raw "") | Write _ c => Some c | Unlink _ => None | Mkdir _ | Rmdir _ => cur end
+    match o with Create _ => Some (Raw "") | Write _ c | Replace _ c => Some c | Unlink _ => None
+               | Mkdir _ | Rmdir _ => cur end
   else cur.
 Definition fsem (p : path) (ops : list op) (init : option content) : option content :=
   fold_left (fstep p) ops init.
@@ -304,12 +307,13 @@ Proof.
   intros o t t' p H. unfold fstep. destruct (path_eqb (op_path o) p) eqn:Ep.
   - apply path_eqb_eq in Ep. subst p. destruct (apply_self _ _ _ H) as (v & Hf & Hv).
     unfold file_at. rewrite Hv.
-    destruct o as [q|q|q c|q|q]; simpl in *.
+    destruct o as [q|q|q c|q|q|q c]; simpl in *.
     + destruct (lookup t q); inversion Hf. reflexivity.
     + destruct (lookup t q) as [[c|cs]|]; inversion Hf; reflexivity.
     + destruct (lookup t q) as [[c'|cs]|]; inversion Hf; reflexivity.
     + destruct (lookup t q) as [[c|cs]|]; inversion Hf; reflexivity.
     + destruct (lookup t q) as [[c|[|e cs]]|]; inversion Hf; reflexivity.
+    + destruct (lookup t q) as [[c'|cs]|]; inversion Hf; reflexivity.
   - apply path_eqb_neq in Ep. rewrite !file_at_node. erewrite apply_frame; eauto.
 Qed.
 
@@ -400,8 +404,8 @@ Proof.
       apply in_flat_map. exists e. auto.
 Qed.
 
-Definition is_fop (o : op) : bool := match o with Create _ | Write _ _ | Unlink _ => true | _ => false end.
-Definition creates (o : op) : bool := match o with Create _ | Write _ _ => true | _ => false end.
+Definition is_fop (o : op) : bool := match o with Create _ | Write _ _ | Unlink _ | Replace _ _ => true | _ => false end.
+Definition creates (o : op) : bool := match o with Create _ | Write _ _ | Replace _ _ => true | _ => false end.
 
 Lemma fsem_app : forall p a b i, fsem p (a ++ b) i = fsem p b (fsem p a i).
 Proof. intros. unfold fsem. apply fold_left_app. Qed.
@@ -409,7 +413,7 @@ Proof. intros. unfold fsem. apply fold_left_app. Qed.
 Lemma fsem_fops : forall p ops i, fsem p ops i = fsem p (filter is_fop ops) i.
 Proof.
   intros p ops. induction ops as [|o r IH]; intros i; simpl; auto.
-  destruct o as [q|q|q c|q|q]; simpl; unfold fsem in *; simpl; try apply IH.
+  destruct o as [q|q|q c|q|q|q c]; simpl; unfold fsem in *; simpl; try apply IH.
   - unfold fstep. simpl. destruct (path_eqb q p); apply IH.
   - unfold fstep. simpl. destruct (path_eqb q p); apply IH.
 Qed.
@@ -507,4 +511,23 @@ Proof.
   intros t here o H. apply rm_entries_paths in H. apply is_prefix_split in H as [r Hr].
   destruct r as [|x r]; [left; rewrite Hr, app_nil_r; reflexivity|right].
   rewrite Hr, app_length. simpl. lia.
+Qed.
+
+(* ------------------------------------------------------------------ rename *)
+(* [rename_ops src dst c] on a tree where the regular file src holds c and dst is absent or a regular file: afterwards
+   dst is a file holding c, src is gone, every other node is as before — the effect of rename(2) / os.replace. *)
+Lemma rename_ops_spec : forall t t' src dst c,
+  src <> dst -> file_at t src = Some c -> exec (rename_ops src dst c) t = Some t' ->
+  file_at t' dst = Some c /\ node_at t' src = None /\
+  forall p, p <> src -> p <> dst -> node_at t' p = node_at t p.
+Proof.
+  intros t t' src dst c Hne Hs He. unfold rename_ops in He. cbn [exec] in He.
+  destruct (apply (Replace dst c) t) as [m|] eqn:E1; [|discriminate].
+  destruct (apply (Unlink src) m) as [m'|] eqn:E2; [|discriminate]. inversion He; subst m'.
+  split; [|split].
+  - rewrite (file_at_apply _ _ _ dst E2), (file_at_apply _ _ _ dst E1). unfold fstep. cbn [op_path].
+    rewrite path_eqb_refl. destruct (path_eqb src dst) eqn:E; auto. apply path_eqb_eq in E. contradiction.
+  - destruct (apply_self _ _ _ E2) as (v & Hf & Hv). cbn [op_fun op_path] in Hf, Hv. unfold node_at. rewrite Hv.
+    destruct (lookup m src) as [[c0|cs]|]; cbn [f_unlink] in Hf; inversion Hf. reflexivity.
+  - intros p Hp1 Hp2. rewrite (apply_frame _ _ _ p E2), (apply_frame _ _ _ p E1); auto.
 Qed.
